@@ -51,7 +51,11 @@ class Co:
 
 
 class Ref:
-    def __init__(self, gc=True, nslots=24):
+    def __init__(self, gc=True, nslots=24, strict=True):
+        # strict: the property's reading "an invalid transition reports failure and changes nothing": a refused
+        # resume(co, ...) takes its arguments back.  strict=False follows the code as it is (the arguments stay
+        # pushed: known finding) and is used to drive the generators and to attribute a divergence.
+        self.strict = strict
         self.gc = gc
         self.nslots = nslots
         self.slots = {}
@@ -189,12 +193,15 @@ class Ref:
             co = self.slots.get(k)
             # documented order: extra arguments are pushed before resuming
             err = self.push_values(k, vals)
+            pushed_ok = err is None
             if err is None:
                 if co is None:
                     err = E_INVALID_CO
                 elif co.status != "suspended":
                     err = E_NOT_SUSPENDED
             if err is not None:
+                if self.strict and co is not None and pushed_ok and vals:
+                    del co.store[-sum(len(v) for v in vals):]      # nothing changes on a refused resume
                 self.here("resume", *self.res(err))
                 return
             if self.active:
@@ -304,6 +311,18 @@ class Ref:
             if co is not None and co.status in ("suspended", "dead"):
                 del self.slots[k]
             self.here("close")
+        elif c == "forget":
+            # the only handle of an idle coroutine is dropped and the collector runs: whatever the collector does with
+            # the unreachable object, nothing observable is left of it and nothing else changes
+            k = a[0]
+            co = self.slots.get(k)
+            if co is None:
+                self.here("forget", "nil")
+            elif co.status in ("suspended", "dead"):
+                del self.slots[k]
+                self.here("forget", "ok")
+            else:
+                self.here("forget", "active")
         elif c == "sub":
             # d deeper frames holding n temporary coroutines only in locals: they behave like any other
             # coroutine (started, collected around, resumed round robin, finished, destroyed); nothing else changes
@@ -344,9 +363,9 @@ class Ref:
         self.done = True
 
 
-def run(script, gc=True, nslots=24):
+def run(script, gc=True, nslots=24, strict=True):
     """script: list of command strings (must end in 'end'); -> list of expected output lines"""
-    r = Ref(gc, nslots)
+    r = Ref(gc, nslots, strict)
     for i, cmd in enumerate(script):
         r.step(i, cmd.split())
     if not r.done:
